@@ -55,6 +55,13 @@ CHECKS = {
         note="Trusted: flat type abstraction, bit-mask std::set<symbol_t>, stub TypeChecker environment; collect_possible_reads by contract (its one-level proof is C11's c11_collect_reads). Bounded: collectDependencies (4 symbols). Not under contract: checkType's recursion reaching every RANGE of a used type; isDefaultInt.",
         technique="sliced real functions / switch clause / if-chains executed on symbolic inputs with ghost contracts in CBMC (assume/call/assert); one bounded unwinding stand-in; native replay through parse_XTA",
     ),
+    "C19": dict(
+        category="proof",
+        text="The REAL struct expression_data, the node constructor and the thirteen create_* factories, clone, the three clone_deeper overloads, subst, equal (with ValueTypeEquality's comparison) and get_size of src/expression.cpp are executed one level deep on symbolic nodes (all kinds, all four value alternatives, arity <= 4; get_size: arity <= 8) whose children are answered by contracts over ghost tables. Obligations from the statement: a deep clone is a fresh node with the same kind/value/symbol/type/arity whose i-th child is the deep clone of the i-th child, it shares no node with the source, the source is unchanged, and clone and source are equal() in both directions; subst returns the substitute for exactly the identifiers of the symbol, rebuilds inner nodes from the substituted children in order, leaves the source unchanged, and subst(s, id(s)) is equal to the source; equal() is true iff kind, value alternative and value, symbol and arity agree and the children are pairwise equal in order, is reflexive, symmetric, transitive and total against the empty expression; get_size() never differs from the number of accessible children, and every (factory, kind) pair the grammar uses (generated from parser.y on every run, unary operators through the REAL ExpressionBuilder::expr_unary) passes get_size's own arity assertions.",
+        design_ref="DESIGN.md section 4, C19",
+        note="Trusted: stubs/expr_tree.h (std::vector as a fixed-capacity array, std::variant as a tagged struct with std::visit as 16-way dispatch, shared_ptr as raw pointer without reference counting, type_t/symbol_t/StringIndex/position_t as identities, frame_t::resolve as a table); induction over tree height (meta-step); children of parsed trees are never empty; double constants are not NaN. Not under contract: print/str ('equal implies equal text'), type_t::subst/rename, kinds built by callbacks other than expr_unary/binary/ternary/nary are covered by the general get_size statement only.",
+        technique="one-level induction steps on sliced real code with ghost-table contracts for the recursive calls, assume/call/assert harnesses in CBMC (mode H); generated (factory, kind) table from parser.y; native replay of the laws on parsed expressions",
+    ),
 }
 
 NOT_APPLICABLE = {
